@@ -50,7 +50,7 @@ DESCRIPTION = {
     ],
     "required_probes": {
         "quick": ["drop_after_wiring", "drop_removed", "rename_determined", "rename_loose", "selfloop", "recreate_after_drop",
-                  "reorder_checked", "duplicate_checked", "multi_pair_rename", "sql_path", "shared_runner_threads", "sql_column_bearing_history", "constant_write_beside_ambiguous_column", "stray_qualifier_names_a_table_of_the_script",
+                  "reorder_checked", "duplicate_checked", "multi_pair_rename", "sql_path", "shared_runner_threads", "first_evaluation_interrupted_then_retried", "sql_column_bearing_history", "constant_write_beside_ambiguous_column", "stray_qualifier_names_a_table_of_the_script",
                   "directory_read_and_overwritten_by_one_statement"],
         "thorough": ["drop_after_wiring", "drop_removed", "rename_determined", "rename_loose", "selfloop", "recreate_after_drop",
                      "reorder_checked", "duplicate_checked", "multi_pair_rename", "sql_path"],
@@ -532,7 +532,55 @@ def check_history_sql(spec) -> dict:
         model.probe("shared_runner_threads")
         if sv:
             viol = sv
+    # the first evaluation of a runner is cut short by an exception at a statement boundary (the analogue of a
+    # collaborator failing once, or of an interrupt); the caller catches it and asks the same runner again: the answer
+    # must be the one the statements determine - nothing of the aborted pass may be left in it (round 11)
+    if viol is None and not model.loose and len(model.states) == 1 and len(stmts) >= 2 and stream(spec["seed"], "retry").random() < 0.5:
+        rv = retry_world(spec, stmts, dialect, model.states[0].roles())
+        model.probe("first_evaluation_interrupted_then_retried")
+        if rv:
+            viol = rv
     return _result(spec, model, viol, states, extra={"sql_statements": len(stmts)})
+
+
+class InterruptedEvaluation(Exception):
+    pass
+
+
+def retry_world(spec, stmts, dialect, want):
+    from sqllineage.runner import LineageRunner
+    from sqllineage.utils import verif as tapmod
+
+    g = stream(spec["seed"], "retry-point")
+    k = g.randrange(len(stmts))
+    ev = g.choice(["stmt.begin", "stmt.analyzed", "stmt.end", "stmt.end", "run.assembled"])
+    times = g.choice([1, 1, 2])
+    runner = LineageRunner(";\n".join(stmts), dialect=dialect)
+    fired = {"n": 0}
+
+    def tap(event, payload):
+        if payload.get("runner") is runner and event == ev and (event == "run.assembled" or payload.get("index") == k) and fired["n"] < times:
+            fired["n"] += 1
+            raise InterruptedEvaluation(f"{ev} {k}")
+
+    tapmod.set_tap(tap)
+    try:
+        for _ in range(times):
+            try:
+                observe_runner(runner)
+                break  # (the point was never reached: nothing was interrupted)
+            except InterruptedEvaluation:
+                pass
+        try:
+            got = observe_runner(runner)
+        except Exception as e:
+            return {"class": "retry_mismatch", "message": f"script {stmts} ({dialect}): the first evaluation was interrupted at {ev} of statement {k} (x{fired['n']}); asking the same runner again raised {type(e).__name__}: {e}", "at": len(stmts)}
+    finally:
+        tapmod.set_tap(None)
+    if fired["n"] and got != want:
+        return {"class": "retry_mismatch", "message": f"script {stmts} ({dialect}): the first evaluation was interrupted at {ev} of statement {k} (x{fired['n']}); asking the same runner again gives {got}; "
+                f"an uninterrupted evaluation gives {want}", "at": len(stmts)}
+    return None
 
 
 def shared_runner_world(spec, stmts, dialect, want):
